@@ -64,3 +64,16 @@ func mustCreate(path string) (*os.File, *bufio.Writer) {
 	}
 	return f, bufio.NewWriterSize(f, 1<<20)
 }
+
+// perm: a random permutation of 0..n-1 (Fisher-Yates).
+func (r *rng) perm(n int) []int {
+	p := make([]int, n)
+	for i := range p {
+		p[i] = i
+	}
+	for i := n - 1; i > 0; i-- {
+		j := r.intn(i + 1)
+		p[i], p[j] = p[j], p[i]
+	}
+	return p
+}
